@@ -19,7 +19,7 @@ class Factor:
     def cholesky(self, A):
         f = Factor(); f.cholesky_inplace(A); return f
     def __call__(self, b):
-        return sla.cho_solve(self._c, np.asarray(b, dtype=float))
+        return sla.cho_solve(self._c, np.asarray(b, dtype=float), check_finite=False)  # like CHOLMOD: NaN in, NaN out
     solve_A = __call__
 
 def analyze(A, mode=None, ordering_method=None):
